@@ -206,13 +206,6 @@ def shrink_candidates(c):
         yield d
 
 
-_observed = {'n': 0}
-
-
-def extra_coverage():
-    return {}
-
-
 MANIFEST_TEXT = ('Machine-checked proof (Coq) over a model of the stale-flag protocol of RouteContext (route_mut/state_mut/as_mut mark '
                  'stale; accept_route_state clears and recomputes stale tours; accept_insertion; accept_solution_state with its final '
                  '"unset all") for ANY table of feature descriptors: the invariant "not stale -> cached field = recomputation from the '
